@@ -9,6 +9,9 @@ const (
 	DefaultMaxMessageSize = 1024 * 512
 	CloseTimeout          = 5 * time.Second
 	DialTimeout           = 5 * time.Second
+
+	// Upper bound on the size of the HTTP response to the upgrade request.
+	maxHandshakeResponseLength = 64 * 1024
 )
 
 type Role uint8
